@@ -124,15 +124,20 @@ theorem Unpaired.clampDof_swap {fl : ℝ → ℝ} (d na nb : RR fl) :
   apply RR.ext'
   rw [Unpaired.clampDof_val, Unpaired.clampDof_val, min_comm]
 
-/-- in exact arithmetic the clamp of `ci_wilson` is the identity on bounds that are proportions -/
+/-- in exact arithmetic the clamps of `ci_wilson` are the identity on bounds that are proportions -/
 theorem Proportion.finishWilson_eq_finish (conf : Confidence Rex) (m s : Rex)
-    (hlo : 0 ≤ m.val - s.val) (hhi : m.val + s.val ≤ 1) :
+    (hlo : 0 ≤ m.val - s.val) (hhi : m.val + s.val ≤ 1)
+    (hlo1 : m.val - s.val ≤ 1) (hhi0 : 0 ≤ m.val + s.val) :
     Proportion.finishWilson conf m s = Proportion.finish conf m s := by
   have e1 : fmax (NumOps.sub m s) (NumOps.zero : Rex) = NumOps.sub m s := by
     apply RR.ext'; rw [fmax_val]; simpa using hlo
   have e2 : fmin (NumOps.add m s) (NumOps.one : Rex) = NumOps.add m s := by
     apply RR.ext'; rw [fmin_val]; simpa using hhi
-  cases conf <;> simp only [Proportion.finishWilson, Proportion.finish, e1, e2]
+  have e3 : fmin (NumOps.sub m s) (NumOps.one : Rex) = NumOps.sub m s := by
+    apply RR.ext'; rw [fmin_val]; simpa using hlo1
+  have e4 : fmax (NumOps.add m s) (NumOps.zero : Rex) = NumOps.add m s := by
+    apply RR.ext'; rw [fmax_val]; simpa using hhi0
+  cases conf <;> simp only [Proportion.finishWilson, Proportion.finish, e1, e2, e3, e4]
 
 
 end StatsCI
